@@ -35,9 +35,10 @@ package flowcontrol
 //@ interface (GlobalFlowControl).TryAcquireN(f, instance, token) props C08
 //@   modifies tbgranted[f]
 //@   ensures (result ==> tbgranted[f] == old(tbgranted[f]) + token) && (!result ==> tbgranted[f] == old(tbgranted[f]))
-//@ interface (GlobalFlowControl).SetState(f, instance, requestId, current) props C08
-//@   modifies setstatecalls
+//@ interface (GlobalFlowControl).SetState(f, instance, requestId, current) props C08, C18
+//@   modifies setstatecalls, stateremoved[f]
 //@   ensures setstatecalls == old(setstatecalls) + 1
+//@   ensures forall i string :: {i in stateremoved[f]} (i in stateremoved[f]) <==> old(i in stateremoved[f]) || (current < 0 && i == instance)
 //@ interface (GlobalFlowControl).Type(f) props C08
 //@   pure-def gfcType(f)
 //@ interface (GlobalFlowControl).DebugInfo(f) props C08
